@@ -449,7 +449,13 @@ func (client *client) readLoop() {
 				}
 			}
 		}
-		client.in <- packet
+		select {
+		case client.in <- packet:
+		case <-client.close:
+			// The connection is being torn down and nobody may be draining client.in any more
+			// (the handler has exited, or the CONNECT was refused): do not block forever.
+			return
+		}
 		verifYield("read.enqueued")
 		<-client.connected
 		srv.statsManager.packetReceived(packet, client.opts.ClientID)
